@@ -273,7 +273,9 @@ def render_gen(t: dict) -> str:
 #            "ops": [["lock", p, custom|None], ["unlock", p, custom|None], ["force", p], ["islocked", p],
 #                    ["call", p, "b"|"n"], ["burn", ctxidx]]}
 
-HARD_WAIT = 30.0      # a reply that takes longer than this is a hang (never reached on the unchanged tree)
+HARD_WAIT = 8.0       # a reply that takes longer than this is a hang (never reached on the unchanged tree)
+HARD_WAIT_AFTER = 0.5 # ... and once HARD_BUDGET such hangs were seen in a run, nobody is waited for longer than this
+HARD_BUDGET = 6
 GRACE = 0.02          # how long a caller is left waiting after the object's worker thread was seen dead
 AFTER_DEATH_OPS = 1   # ops still issued after the worker died (they must all go unanswered)
 RESERVED = ("__ACCESS_DENIED__", "__OBJECT_LOCKED__")
@@ -317,6 +319,7 @@ class _Instrumented:
         self.orig_hook = threading.excepthook
         self.orig_mut = qctx.QMI_Context.make_unique_token
         self.thread_deaths = {}
+        self.hard_timeouts = 0
         orig_wait, orig_mut = self.orig_wait, self.orig_mut
         NO_RESULT = rpc.QMI_RpcFutureState.NO_RESULT_YET
 
@@ -327,12 +330,13 @@ class _Instrumented:
             if cv is None or not hasattr(fut, "_state"):
                 return orig_wait(fut, HARD_WAIT)
             world = _state["world"]
-            deadline = time.monotonic() + HARD_WAIT
+            deadline = time.monotonic() + (HARD_WAIT if self.hard_timeouts < HARD_BUDGET else HARD_WAIT_AFTER)
             dead_since = None
             with cv:
                 while fut._state == NO_RESULT:
                     now = time.monotonic()
                     if now > deadline:
+                        self.hard_timeouts += 1
                         break
                     w = world.worker_of(fut.rpc_object_address) if world is not None else None
                     if w is not None and not w.is_alive():
@@ -981,6 +985,10 @@ class C04(Prop):
             res.count("malformed_lines")
             if got != exp:
                 res.broken.append(Broken("correspondence", "driver malformed-line handling", f"{l!r}: {got!r} != {exp!r}"))
+        t = getattr(self, "_tables", None)
+        if t:
+            res.extra["generated_lock_table"] = {f"{a}/{'locked' if l else 'unlocked'}/{r}": c for (a, l, r), c in t["lock"].items()}
+            res.extra["generated_dispatch_guard"] = {f"{'locked' if l else 'unlocked'}/{r}": c for (l, r), c in t["guard"].items()}
         res.assumptions.append("same-named client contexts inside one process stand for separate processes that share a context name")
         return res
 
@@ -1008,7 +1016,7 @@ class C04(Prop):
                               ["islocked", p], ["call", p, "b"]]
                 for n in (1, 2, 3):
                     for ops in itertools.product(alpha, repeat=n):
-                        if n == 3 and ops[0][0] not in ("lock",):
+                        if n == 3 and not (ops[0][0] == "lock" and ops[0][1] < 2):
                             continue
                         h = {"srv": "srv", "ctxs": ctxs, "proxies": proxies, "ops": [list(o) for o in ops]}
                         _, _, tr = run_history(h)
